@@ -245,7 +245,15 @@ func runScenario(t *testing.T, rec *sim.Recorder, sc Scenario) {
 		time.Sleep(time.Second)
 		synctest.Wait()
 		if other != nil {
-			other.Close()
+			// the second group member is closed the same way: Close must return for it too
+			odone := make(chan struct{})
+			ostart := time.Now()
+			go func() { other.Close(); close(odone) }()
+			select {
+			case <-odone:
+			case <-time.After(10 * time.Minute):
+				rec.Ev("close_stuck", "ms", time.Since(ostart).Milliseconds(), "which", "second member")
+			}
 		}
 		if sc.Brokers != "gone" {
 			c.Close()
